@@ -8,13 +8,17 @@ tie:     adversarial programs: every subset of the layers {inline resource | Res
          metadata (by a string, int, list, null, a computed map), metadata.name, metadata.namespace — literally or
          through inputs; each program reconciled against an empty cluster (POST) and a drifted live object
          (PATCH / DELETE); method, endpoint, URL name, namespace argument and body identity compared with the model
-oracle:  every POST/PATCH body's identity and every request's address against what apiConfig evaluates to
+         + sessions (several functions of one kind with different apiVersion in one process) and concurrent groups
+         (2-3 reconciles of one kind in flight together, harness/vloop.py, every call suspends)
+oracle:  every POST/PATCH body's identity, every request's address and API version, and the reported resource id
+         against what the function's own apiConfig evaluates to
 """
 from __future__ import annotations
 
 import copy
 import itertools
 import json
+import os
 
 from common import Check, LeanDriver, ddmin, from_wire, rng
 import gen_rf678 as g
@@ -24,14 +28,15 @@ KINDS = list(g.EDITS)
 
 
 def live_object(prog: dict, shape: int) -> dict:
-    kind, _ = g.kind_for(PREFIX, prog["namespaced"])
+    kind, _ = g.kind_for(prog.get("prefix", PREFIX), prog["namespaced"])
     md = {"name": prog.get("name", g.NAME), "uid": "uid-live", "resourceVersion": "3"}
     ns = prog.get("apiNs", g.NS if prog["namespaced"] else None)
     if prog["namespaced"]:
         md["namespace"] = ns
     if shape % 2 == 0:
         md["ownerReferences"] = [copy.deepcopy(g.OWNER_REF)]
-    return {"apiVersion": g.API_VERSION, "kind": kind, "metadata": md, "spec": {"liveOnly": shape}}
+    return {"apiVersion": prog.get("apiVersion", g.API_VERSION), "kind": kind, "metadata": md,
+            "spec": {"liveOnly": shape}}
 
 
 def grid(full: bool):
@@ -78,7 +83,7 @@ def random_program(r) -> dict:
 
 
 def expected_identity(b: dict, prog: dict) -> dict:
-    return {"apiVersion": g.API_VERSION, "kind": b["kind"], "name": b["name"], "namespace": b["ns"]}
+    return {"apiVersion": b["apiVersion"], "kind": b["kind"], "name": b["name"], "namespace": b["ns"]}
 
 
 def oracle(prog: dict, b: dict) -> str | None:
@@ -86,9 +91,22 @@ def oracle(prog: dict, b: dict) -> str | None:
     obs = b["obs"]
     if not obs["prepared"]:
         return None
+    return oracle_on(prog, b, g.log_view(obs["cluster"]), obs.get("resource_id"))
+
+
+def oracle_on(prog: dict, b: dict, entries: list, resource_id) -> str | None:
+    """the clauses on the requests that belong to one function's reconcile, and on the resource id it reports"""
     want = expected_identity(b, prog)
-    for e in g.log_view(obs["cluster"]):
+    if isinstance(resource_id, dict):
+        for k, v in (("apiVersion", b["apiVersion"]), ("kind", b["kind"]), ("plural", b["plural"]), ("name", b["name"])):
+            if resource_id.get(k) != v:
+                return f"reported resource id has {k}={resource_id.get(k)!r}, apiConfig evaluates to {v!r}"
+        if b["ns"] is not None and resource_id.get("namespace") != b["ns"]:
+            return f"reported resource id has namespace={resource_id.get('namespace')!r}, apiConfig evaluates to {b['ns']!r}"
+    for e in entries:
         m = e["method"]
+        if e["version"] != b["apiVersion"]:
+            return f"{m} sent to API version {e['version']!r}, apiConfig says {b['apiVersion']!r}"
         if e["plural"] != b["plural"]:
             return f"{m} addressed to endpoint {e['plural']!r}, apiConfig's is {b['plural']!r}"
         # namespaced kinds: exactly apiConfig's namespace; cluster-scoped kinds: none (koreo hands the load
@@ -111,7 +129,8 @@ def oracle(prog: dict, b: dict) -> str | None:
 def request_obs(req):
     if req is None or req == "multiple":
         return req
-    out = {"method": req["method"], "plural": req["plural"], "name": req["name"], "nsArg": req["nsArg"]}
+    out = {"method": req["method"], "plural": req["plural"], "name": req["name"], "nsArg": req["nsArg"],
+           "version": req["version"]}
     if req["method"] in ("POST", "PATCH"):
         out["identity"] = g.identity_of(req["body"])
     return out
@@ -133,10 +152,185 @@ def model_request(ans: dict, b: dict, prog: dict):
         return None
     out = {"method": q["method"], "plural": q["plural"],
            "name": from_wire(q["name"]) if q["method"] != "POST" else g.get_path(from_wire(q["body"]), "metadata", "name"),
-           "nsArg": from_wire(q["nsArg"])}
+           "nsArg": from_wire(q["nsArg"]), "version": q["version"]}
     if q["method"] in ("POST", "PATCH"):
         out["identity"] = g.identity_of(from_wire(q["body"]))
     return out
+
+
+# ------------------------------------------------------------------ several functions in one process
+
+VERSIONS = ("verif.test/v1", "verif.test/v2", "verif.test/v1beta1", "other.test/v1", "other.test/v2")
+_fresh = [0]
+
+
+def fresh_prefix() -> str:
+    """kr8s classes (and whatever prepare memoises about them) live as long as the process: every session /
+    concurrent group gets kinds nobody has used yet, so that a case means the same in any process"""
+    _fresh[0] += 1
+    return f"C6k{_fresh[0]}x{os.getpid() % 1000}"
+
+
+def with_prefix(progs: list, prefix: str) -> list:
+    out = copy.deepcopy(progs)
+    for i, p in enumerate(out):
+        p["prefix"] = prefix
+        p["suffix"] = f"-{i}"
+    return out
+
+
+def session_case(r) -> dict:
+    """2-3 functions for the SAME kind that differ in apiVersion (group and/or version), prepared and reconciled
+    one after the other in one process — as during a CRD version migration"""
+    namespaced = r.random() < 0.7
+    versions = r.sample(VERSIONS, r.choice((2, 2, 3)))
+    progs = []
+    for v in versions:
+        p = {"namespaced": namespaced, "tmplForm": r.choice(("inline", "inline", "ref")), "apiVersion": v,
+             "edits": [], "benign": [l for l in g.LAYERS[1:] if r.random() < 0.2], "flags": {"owned": r.random() < 0.7}}
+        for layer in g.LAYERS:
+            if r.random() < 0.3:
+                p["edits"].append({"layer": layer, "kind": r.choice(KINDS), "via": r.random() < 0.4})
+        progs.append(p)
+    return {"session": progs}
+
+
+def run_session(case: dict) -> list:
+    """[(prog as run, build+obs)] — every function against an empty cluster and then a drifted live object"""
+    progs = with_prefix(case["session"], fresh_prefix())
+    out = []
+    for first in (True, False):
+        for i, p in enumerate(progs):
+            q = copy.deepcopy(p)
+            q["stored"] = None if first else live_object_for(q, i)
+            out.append((q, g.run_program(q)))
+    return out
+
+
+def live_object_for(prog: dict, shape: int) -> dict:
+    obj = live_object(prog, shape)
+    obj["kind"] = g.kind_for(prog["prefix"], prog["namespaced"])[0]
+    return obj
+
+
+def session_bad(case: dict):
+    for q, b in run_session(case):
+        bad = oracle(q, b)
+        if bad:
+            return f"function {q['suffix']} ({q['apiVersion']}): {bad}"
+    return None
+
+
+def shrink_session(case: dict) -> dict:
+    small = copy.deepcopy(case)
+    i = 0
+    while i < len(small["session"]) and len(small["session"]) > 1:
+        trial = {"session": small["session"][:i] + small["session"][i + 1:]}
+        if session_bad(trial):
+            small = trial
+        else:
+            i += 1
+    for p in small["session"]:
+        for k, v in (("edits", []), ("benign", []), ("tmplForm", "inline")):
+            if p.get(k) != v:
+                trial = copy.deepcopy(small)
+                trial["session"][small["session"].index(p)][k] = v
+                if session_bad(trial):
+                    p[k] = v
+    return small
+
+
+# ------------------------------------------------------------------ several reconciles in flight at once
+
+NAMES = ("obj-a", "obj-b", "obj-c")
+NAMESPACES = ("ns1", "team-a", "team-b")
+
+
+def concurrent_case(r) -> dict:
+    """2-3 reconciles of the same kind (different names / namespaces), started together; every API call really
+    suspends (positive latency under the virtual-time loop), so the reconciles interleave at each call"""
+    namespaced = r.random() < 0.75
+    n = r.choice((2, 2, 3))
+    same_spec = r.random() < 0.4      # one function, different inputs  /  different functions of the kind
+    edits0 = [{"layer": l, "kind": r.choice(KINDS), "via": r.random() < 0.4} for l in g.LAYERS if r.random() < 0.25]
+    progs = []
+    for i in range(n):
+        p = {"namespaced": namespaced, "tmplForm": "inline", "name": NAMES[i], "flags": {"owned": r.random() < 0.7},
+             "edits": copy.deepcopy(edits0) if same_spec else
+             [{"layer": l, "kind": r.choice(KINDS), "via": r.random() < 0.4} for l in g.LAYERS if r.random() < 0.25],
+             "benign": [], "nameVia": same_spec or r.random() < 0.3, "nsVia": same_spec or r.random() < 0.3,
+             "present": r.random() < 0.5}
+        if namespaced:
+            p["apiNs"] = NAMESPACES[i] if r.random() < 0.7 else NAMESPACES[0]
+        progs.append(p)
+    return {"concurrent": progs, "latencies": [r.choice((0.5, 1, 1.5, 2, 3)) for _ in range(r.choice((3, 5, 7)))]}
+
+
+def run_concurrent_case(case: dict) -> dict:
+    progs = with_prefix(case["concurrent"], fresh_prefix())
+    for i, p in enumerate(progs):
+        p["stored"] = live_object_for(p, i) if p.get("present") else None
+    out = g.run_concurrent(progs, case["latencies"])
+    out["progs"] = progs
+    return out
+
+
+def concurrent_bad(case: dict, out: dict | None = None):
+    """every request must carry the identity of the reconcile it belongs to (model-free): a PATCH/DELETE is
+    attributed by its URL, the POSTs must be exactly one per absent object with that object's identity"""
+    out = out or run_concurrent_case(case)
+    if not out["prepared"]:
+        return None
+    progs, builds = out["progs"], out["builds"]
+    entries = g.log_view(out["cluster"])
+    for res, p, b in zip(out["results"], progs, builds):
+        if res["raised"]:
+            return f"reconcile of {b['name']} raised {res['raised']}"
+        bad = oracle_on(p, b, [], res["resource_id"])
+        if bad:
+            return f"reconcile of {b['name']}: {bad}"
+    owners = {(b["name"], b["ns"] if p["namespaced"] else None): (p, b) for p, b in zip(progs, builds)}
+    posted = []
+    for e in entries:
+        if e["method"] == "POST":
+            body_id = g.identity_of(e["body"])
+            key = (body_id["name"], e["nsArg"])
+            posted.append(key)
+        else:
+            key = (e["name"], e["nsArg"] if e["method"] != "GET" or progs[0]["namespaced"] else None)
+        if key not in owners:
+            return f"{e['method']} for ({key[0]!r}, {key[1]!r}), which none of the reconciles in flight manages"
+        p, b = owners[key]
+        bad = oracle_on(p, b, [e], None)
+        if bad:
+            return f"while {len(progs)} reconciles were in flight, the one for {b['name']!r}: {bad}"
+    want_posts = sorted((b["name"], b["ns"] if p["namespaced"] else None) for p, b in zip(progs, builds) if p["stored"] is None)
+    if sorted(posted, key=str) != sorted(want_posts, key=str):
+        return f"objects created {sorted(posted, key=str)}, absent objects to create {want_posts}"
+    return None
+
+
+def shrink_concurrent(case: dict) -> dict:
+    small = copy.deepcopy(case)
+    i = 0
+    while i < len(small["concurrent"]) and len(small["concurrent"]) > 2:
+        trial = copy.deepcopy(small)
+        del trial["concurrent"][i]
+        if concurrent_bad(trial):
+            small = trial
+        else:
+            i += 1
+    for j in range(len(small["concurrent"])):
+        for k, v in (("edits", []), ("nameVia", False), ("nsVia", False)):
+            trial = copy.deepcopy(small)
+            trial["concurrent"][j][k] = v
+            if trial != small and concurrent_bad(trial):
+                small = trial
+    trial = copy.deepcopy(small)
+    trial["latencies"] = [1]
+    if concurrent_bad(trial):
+        small = trial
+    return small
 
 
 def shrink(prog: dict, bad_of) -> dict:
@@ -252,6 +446,99 @@ def run(tier: str) -> int:
         if want != mine or obs["raised"]:
             ck.disagree(case, want, {"request": mine, "raised": obs["raised"]},
                         "request: method/endpoint/name/namespace-argument/body-identity")
+    # ---- several functions of one kind in one process (same kind, different apiVersion)
+    n_sessions = 60 if tier == "quick" else 600
+    for _ in range(n_sessions):
+        case = session_case(r)
+        runs = run_session(case)
+        try:
+            s_answers = drv.ask([b["model"] for _, b in runs])
+        except Exception:
+            s_answers = [None] * len(runs)
+        reported = False
+        for (q, b), ans in zip(runs, s_answers):
+            ck.evaluated()
+            ck.count("session-run:" + q["apiVersion"])
+            obs = b["obs"]
+            req = g.impl_request(obs) if obs["prepared"] else None
+            if isinstance(req, dict) and req["method"] in ("POST", "PATCH"):
+                ck.nontriv(g.dumps(["session", [p["apiVersion"] for p in case["session"]], q["suffix"], q["edits"],
+                                    req["method"]]))
+            bad = oracle(q, b)
+            if bad and not reported:
+                reported = True
+                if len(ck.violations) < 5:
+                    small = shrink_session(case)
+                    ck.violate(small, session_bad(small) or bad)
+                elif len(ck.violations) < 40:
+                    ck.violate(case, bad)
+            if ans is None or "error" in ans or not obs["prepared"]:
+                if ans is not None:
+                    ck.disagree({"session": case["session"], "function": q["suffix"]}, ans.get("error"),
+                                obs.get("prepare"), "session: driver error / not prepared")
+                continue
+            want = model_request(ans, b, q)
+            if want == "skip" or (obs["raised"] and want is None):
+                continue
+            mine = request_obs(req)
+            if want != mine or obs["raised"]:
+                ck.disagree({"session": case["session"], "function": q["suffix"], "stored": q["stored"] is not None},
+                            want, {"request": mine, "raised": obs["raised"]},
+                            "session request: method/endpoint/version/name/namespace-argument/body-identity")
+    ck.cov["sessions"] = n_sessions
+
+    # ---- several reconciles of one kind in flight at once
+    n_groups = 150 if tier == "quick" else 2000
+    for _ in range(n_groups):
+        case = concurrent_case(r)
+        out = run_concurrent_case(case)
+        ck.evaluated(len(case["concurrent"]))
+        ck.count(f"concurrent-group-size:{len(case['concurrent'])}")
+        if not out["prepared"]:
+            ck.disagree(case, "prepared", out.get("prepare"), "concurrent group does not prepare")
+            continue
+        entries = g.log_view(out["cluster"])
+        muts = [e for e in entries if e["method"] != "GET"]
+        order = "".join(e["method"][0] for e in entries)
+        ck.count("concurrent-interleaved" if "GG" in order else "concurrent-sequential")
+        if muts:
+            ck.nontriv(g.dumps(["concurrent", case["concurrent"], order]))
+        if len(ck.cov["samples"]) < 6 and "GG" in order and len(muts) >= 2:
+            ck.sample({"concurrent": case["concurrent"], "latencies": case["latencies"], "call order": order,
+                       "requests": [request_obs(e) for e in muts]})
+        bad = concurrent_bad(case, out)
+        if bad:
+            if len(ck.violations) < 5:
+                small = shrink_concurrent(case)
+                ck.violate(small, concurrent_bad(small) or bad)
+            elif len(ck.violations) < 40:
+                ck.violate(case, bad)
+        # correspondence: the model has no shared state, so the requests in flight together are exactly the
+        # requests of the same reconciles taken one by one
+        try:
+            c_answers = drv.ask([b["model"] for b in out["builds"]])
+        except Exception:
+            continue
+        want_all, skip = [], False
+        for p, b, ans in zip(out["progs"], out["builds"], c_answers):
+            if "error" in ans:
+                skip = True
+                break
+            w = model_request(ans, b, p)
+            if w == "skip":
+                skip = True
+                break
+            if w is not None:
+                want_all.append(w)
+        if skip or any(res["raised"] for res in out["results"]):
+            if any(res["raised"] for res in out["results"]) and not skip:
+                ck.disagree(case, want_all, [res["raised"] for res in out["results"]], "concurrent: a reconcile raised")
+            continue
+        mine_all = [request_obs(e) for e in muts]
+        if sorted(map(g.dumps, want_all)) != sorted(map(g.dumps, mine_all)):
+            ck.disagree(case, want_all, mine_all, "concurrent: the requests in flight together vs one by one")
+    ck.cov["concurrent_groups"] = n_groups
+
     ck.cov["programs"] = len(work)
     ck.cov["grid"] = {"layer_subsets": 32, "replacement_kinds": len(KINDS), "full": tier != "quick"}
     return ck.finish(
@@ -260,8 +547,13 @@ def run(tier: str) -> int:
              "metadata.namespace, metadata := string | int | list | null | computed map); quick rotates scope / template "
              "form / literal-vs-input over the grid, thorough takes all 8 combinations; plus random programs (several "
              "edits per layer, skipIf, apiConfig through inputs, other names/namespaces, policies); each against an "
-             "empty cluster and a drifted live object; non-trivial = at least one adversarial edit and a POST or PATCH "
-             "was sent; distinct by edits+scope+template form+action",
+             "empty cluster and a drifted live object; plus sessions of 2-3 functions for the SAME kind but different "
+             "apiVersion (group and/or version) prepared and reconciled one after the other in one process (request "
+             "`version=`, body apiVersion and the reported resource id must be each function's own); plus groups of 2-3 "
+             "reconciles of one kind (different names / namespaces, one function with different inputs or different "
+             "functions) in flight together under the virtual-time loop with every API call suspending — every request "
+             "must carry the identity of its own reconcile; non-trivial = a POST or PATCH was sent by a program with an "
+             "adversarial edit / in a session / in a concurrent group; distinct by edits+scope+template form+action",
     )
 
 
@@ -269,13 +561,28 @@ def replay(path: str) -> int:
     data = json.load(open(path))
     rc = 0
     for v in data.get("violations", []):
-        prog = v["case"]["prog"]
-        b = g.run_program(prog)
-        bad = oracle(prog, b)
-        print("replay:", json.dumps(prog), "->", json.dumps([request_obs(g.impl_request(b["obs"]))], default=str), "::", bad)
+        case = v["case"]
+        if "session" in case:
+            bad = session_bad(case)
+            print("replay (functions prepared one after the other):", json.dumps(case), "::", bad)
+        elif "concurrent" in case:
+            bad = concurrent_bad(case)
+            print("replay (reconciles in flight together):", json.dumps(case), "::", bad)
+        else:
+            prog = case["prog"]
+            b = g.run_program(prog)
+            bad = oracle(prog, b)
+            print("replay:", json.dumps(prog), "->", json.dumps([request_obs(g.impl_request(b["obs"]))], default=str), "::", bad)
         rc = rc or (1 if bad else 0)
     for d in data.get("no_longer_checks", []):
-        if d.get("kind") == "correspondence" and isinstance(d.get("case"), dict) and "prog" in d["case"]:
+        if d.get("kind") == "correspondence" and isinstance(d.get("case"), dict) and \
+                ("session" in d["case"] or "concurrent" in d["case"]):
+            case = d["case"]
+            bad = session_bad(case) if "session" in case else concurrent_bad(case)
+            print("replay (model/implementation, several functions):", json.dumps(case)[:800], "oracle ::", bad,
+                  "model ->", json.dumps(d.get("model"), default=str)[:600], "impl ->", json.dumps(d.get("impl"), default=str)[:600])
+            rc = 1
+        elif d.get("kind") == "correspondence" and isinstance(d.get("case"), dict) and "prog" in d["case"]:
             prog = d["case"]["prog"]
             b = g.run_program(prog)
             ans = LeanDriver("C06").ask([b["model"]])[0]
